@@ -282,7 +282,12 @@ def run_case(case, obs):
 
     def ref_for(i):
         if i not in ref_cache:
-            f = _fit_fresh(cls, pool[i], cfg, _rot_kw(case))
+            try:
+                f = _fit_fresh(cls, pool[i], cfg, _rot_kw(case))
+            except RuntimeError as e:
+                if "did not converge" in str(e):
+                    obs.refuse("reference rotation did not converge within max_iter (documented refusal)")
+                raise
             ref_cache[i] = (_Q(f, pool[i]), f)
         return ref_cache[i][0]
 
@@ -308,7 +313,12 @@ def run_case(case, obs):
                     fresh_ref = ref_for(j)  # also proves the data is fittable
                     _do_fit(model, base, data, wts)
                     if rot is not None:
-                        rot.fit(model)
+                        try:
+                            rot.fit(model)
+                        except RuntimeError as e:
+                            if "did not converge" in str(e):
+                                obs.refuse("Varimax/Promax did not converge within max_iter (documented refusal)")
+                            raise
                     current = j
                     nfits += 1
                     if nfits >= 2:
@@ -358,7 +368,13 @@ def run_case(case, obs):
                     if rname is None:
                         continue
                     r2 = zoo.make(rname, n_modes=2, power=int(1 + (step % 2)))
-                    r2.fit(model)
+                    try:
+                        r2.fit(model)
+                    except RuntimeError as e:
+                        if "did not converge" in str(e):
+                            obs.count("rotate_refused_not_converged")
+                            continue
+                        raise
                     r2.components()
                     _model_still_usable(obs, model, tags)
                 elif op == "bootstrap":
